@@ -69,6 +69,7 @@ func (a *actor) name() string {
 
 type event struct {
 	Ev   string `json:"ev"`
+	N    int    `json:"n"`
 	S    int    `json:"s"`
 	D    int    `json:"d"`
 	P    string `json:"p"`
